@@ -47,7 +47,7 @@ def run(R):
                   "no axioms: every theorem of Properties/C11.v is closed under the global context"]
     R.assume += ["amounts stay far below the 256-bit / 315-bit limits of sdk.Int / sdk.Dec (overflow panics of Dec are modelled, those of Int are not)",
                  "underlying denominations are unique in a basket (CreateBasket/EditBasket reject duplicates; modelled) and weights are positive in generated configurations",
-                 "block times are whole seconds; limits periods stay below 2^33 s",
+                 "block times are unix nanoseconds (sub-second parts, several messages per block time); limits periods stay below 2^33 s",
                  "after AfterUpsertStakingPool replaced the record of basket 1 the history ends (later operations on the replaced record are not modelled)"]
     R.coq_files(FILES)
     R.coq_property()
